@@ -36,7 +36,7 @@ m = {
     'engines': [{'name': 'govc', 'path': '/verif/govc', 'serves_properties': [c['property_id'] for c in checks],
                  'kind_free_text': 'verification-condition generator for Go (go/packages + go/ssa -> SMT-LIB), contracts in //@ comments, z3 4.8.12 / z3 5.1.0 / cvc5 1.0 raced per obligation'}],
     'checks': checks,
-    'notes': 'See DESIGN.md. Every check rebuilds SSA from /repo\'s working tree; quick and thorough differ in solver timeout (20 s / 120 s) and in the self-test corpus run by thorough.',
+    'notes': 'See DESIGN.md. Every check rebuilds SSA from /repo\'s working tree; quick and thorough differ in the per-solver timeout only (20 s / 120 s); the must-fail / harmless-edit self-test corpus (/verif/selftest) is a separate command, `bin/govc selftest [Cxx...]`, and never writes evidence. tools/checkall.sh runs every check and validates the evidence files (tools/validate_evidence.py).',
     'not_applicable': [{'property_id': p['id'], 'reason': na.get(p['id'], 'contracts for this property are not yet under a discharged check (see DESIGN.md §5 for the planned obligations)')} for p in props if p['id'] not in claims],
 }
 json.dump(m, open(f'{V}/MANIFEST.json', 'w'), indent=1)
